@@ -52,7 +52,10 @@ func init() {
 	}
 }
 
-func c20Bound(frameLen int) int64 { return 1<<20 + 64*int64(frameLen) }
+// c20Bound: every received byte may announce one array element, and an element is decoded into a Go
+// struct of up to ~200 bytes (metadata partitions, group members), so memory linear in the bytes
+// received with a factor of that order is in proportion; 1 MiB covers pools and fixed costs.
+func c20Bound(frameLen int) int64 { return 1<<20 + 256*int64(frameLen) }
 
 // stack-mode allowance for the harness' own in-process traffic (fake broker,
 // fake network, reference codec) that is measured together with the client.
